@@ -107,6 +107,10 @@ pub fn gen_history<S: Sut>(seed: u64, cfg: Cfg, sweep: Option<Sweep>) -> Outcome
         // The observer sweep below then enumerates *all* per-actor-ordered delivery orders of this op set.
         HOT.with(|h| h.set(true));
         let mut roles: Vec<u8> = vec![0; 1 + rng.below(3)];
+        if S::NAME == "LI" {
+            // sequences need a few more elements before removals become interesting
+            roles.extend([0, 0, 0]);
+        }
         roles.push(1);
         roles.push(2);
         if rng.chance(1, 2) {
@@ -123,9 +127,18 @@ pub fn gen_history<S: Sut>(seed: u64, cfg: Cfg, sweep: Option<Sweep>) -> Outcome
         for role in roles {
             let r = rng.below(n);
             // what this author has seen: each earlier op with probability 1/2, closed under causality
+            // knowledge profile of this author: everything so far / everything except the newest op (pairwise
+            // concurrency on an otherwise shared past) / an arbitrary causally closed subset
             let mut want: Bits = 0;
-            for i in 0..w.ops.len() {
-                if rng.chance(1, 2) {
+            let profile = rng.below(4);
+            let nops_now = w.ops.len();
+            for i in 0..nops_now {
+                let take = match profile {
+                    0 => true,
+                    1 => i + 1 < nops_now,
+                    _ => rng.chance(1, 2),
+                };
+                if take {
                     want |= 1 << i | w.deps[i];
                 }
             }
